@@ -47,6 +47,77 @@ pub fn strip_item_attrs(it: &mut syn::Item) {
     S.visit_item_mut(it);
 }
 
+/// Evaluate `#[cfg(..)]` attributes under the configuration the checks verify: default features of every crate
+/// (std, multithread ON; profile, no_zk, verif-hooks OFF), not(test), unix/linux. None = no cfg attribute.
+pub fn cfg_value(attrs: &[syn::Attribute]) -> Option<bool> {
+    fn eval(m: &syn::Meta) -> bool {
+        match m {
+            syn::Meta::Path(p) => p.is_ident("unix"),
+            syn::Meta::NameValue(nv) => {
+                let val = match &nv.value {
+                    Expr::Lit(syn::ExprLit { lit: syn::Lit::Str(s), .. }) => s.value(),
+                    _ => String::new(),
+                };
+                if nv.path.is_ident("feature") { matches!(val.as_str(), "std" | "multithread") }
+                else if nv.path.is_ident("target_os") { val == "linux" }
+                else if nv.path.is_ident("target_family") { val == "unix" }
+                else { false }
+            }
+            syn::Meta::List(l) => {
+                let inner: Vec<syn::Meta> = l.parse_args_with(Punctuated::<syn::Meta, Token![,]>::parse_terminated).map(|p| p.into_iter().collect()).unwrap_or_default();
+                if l.path.is_ident("not") { !inner.first().map(eval).unwrap_or(false) }
+                else if l.path.is_ident("all") { inner.iter().all(eval) }
+                else if l.path.is_ident("any") { inner.iter().any(eval) }
+                else { false }
+            }
+        }
+    }
+    let mut res: Option<bool> = None;
+    for a in attrs {
+        if a.path().is_ident("cfg") {
+            if let syn::Meta::List(l) = &a.meta {
+                if let Ok(m) = l.parse_args::<syn::Meta>() {
+                    let v = eval(&m);
+                    res = Some(res.unwrap_or(true) && v);
+                }
+            }
+        }
+    }
+    res
+}
+
+fn stmt_attrs(s: &Stmt) -> Vec<syn::Attribute> {
+    match s {
+        Stmt::Local(l) => l.attrs.clone(),
+        Stmt::Macro(m) => m.attrs.clone(),
+        Stmt::Item(syn::Item::Use(u)) => u.attrs.clone(),
+        Stmt::Item(syn::Item::Fn(f)) => f.attrs.clone(),
+        Stmt::Item(syn::Item::Const(f)) => f.attrs.clone(),
+        Stmt::Expr(e, _) => expr_attrs(e),
+        _ => vec![],
+    }
+}
+fn expr_attrs(e: &Expr) -> Vec<syn::Attribute> {
+    match e {
+        Expr::Return(x) => x.attrs.clone(), Expr::Call(x) => x.attrs.clone(), Expr::MethodCall(x) => x.attrs.clone(),
+        Expr::Block(x) => x.attrs.clone(), Expr::If(x) => x.attrs.clone(), Expr::Macro(x) => x.attrs.clone(),
+        Expr::Assign(x) => x.attrs.clone(), Expr::ForLoop(x) => x.attrs.clone(), Expr::While(x) => x.attrs.clone(),
+        Expr::Path(x) => x.attrs.clone(), Expr::Struct(x) => x.attrs.clone(), Expr::Match(x) => x.attrs.clone(),
+        Expr::Let(x) => x.attrs.clone(), Expr::Try(x) => x.attrs.clone(), Expr::Unsafe(x) => x.attrs.clone(),
+        _ => vec![],
+    }
+}
+fn clear_expr_attrs(e: &mut Expr) {
+    match e {
+        Expr::Return(x) => x.attrs.clear(), Expr::Call(x) => x.attrs.clear(), Expr::MethodCall(x) => x.attrs.clear(),
+        Expr::Block(x) => x.attrs.clear(), Expr::If(x) => x.attrs.clear(), Expr::Macro(x) => x.attrs.clear(),
+        Expr::Assign(x) => x.attrs.clear(), Expr::ForLoop(x) => x.attrs.clear(), Expr::While(x) => x.attrs.clear(),
+        Expr::Path(x) => x.attrs.clear(), Expr::Struct(x) => x.attrs.clear(), Expr::Match(x) => x.attrs.clear(),
+        Expr::Let(x) => x.attrs.clear(), Expr::Try(x) => x.attrs.clear(), Expr::Unsafe(x) => x.attrs.clear(),
+        _ => {}
+    }
+}
+
 fn macro_name(m: &syn::Macro) -> String {
     m.path.segments.last().map(|s| s.ident.to_string()).unwrap_or_default()
 }
@@ -162,6 +233,7 @@ fn parse_iter(e: &Expr, bare_ok: bool) -> Option<Iter> {
                         None
                     }
                 }
+                _ if bare_ok => Some(Iter { src: Src::Index { base: e.clone(), by_ref: false }, adapters: vec![] }),
                 _ => None,
             }
         }
@@ -172,6 +244,24 @@ fn parse_iter(e: &Expr, bare_ok: bool) -> Option<Iter> {
         // `for x in f(..)` over an owned Vec result: bound to a temporary and indexed by value
         Expr::Call(_) if bare_ok => Some(Iter { src: Src::Index { base: e.clone(), by_ref: false }, adapters: vec![] }),
         _ => None,
+    }
+}
+
+/// `let &x = &e` == `let x = e` (for Copy e); `let (&a, &b) = (&e1, &e2)` likewise. Returns simplified (pat, elem).
+fn strip_ref_pat(pat: &Pat, elem: &Expr) -> (Pat, Expr) {
+    match (pat, elem) {
+        (Pat::Reference(pr), Expr::Reference(er)) if pr.mutability.is_none() && er.mutability.is_none() => ((*pr.pat).clone(), (*er.expr).clone()),
+        (Pat::Tuple(pt), Expr::Tuple(et)) if pt.elems.len() == et.elems.len() => {
+            let mut ps = pt.clone();
+            let mut es = et.clone();
+            for (p, e) in ps.elems.iter_mut().zip(es.elems.iter_mut()) {
+                let (np, ne) = strip_ref_pat(p, e);
+                *p = np;
+                *e = ne;
+            }
+            (Pat::Tuple(ps), Expr::Tuple(es))
+        }
+        _ => (pat.clone(), elem.clone()),
     }
 }
 
@@ -250,6 +340,24 @@ impl Norm {
                 **ty = parse_quote!(__vx_ret!(#t));
             }
         }
+        // N18: destructuring pattern in parameter position -> plain parameter + leading `let`
+        let mut k = 0;
+        let mut lets: Vec<Stmt> = vec![];
+        for a in sig.inputs.iter_mut() {
+            if let syn::FnArg::Typed(t) = a {
+                if !matches!(&*t.pat, Pat::Ident(_)) {
+                    let name = id(&format!("__param{k}"));
+                    k += 1;
+                    let p = (*t.pat).clone();
+                    lets.push(parse_quote!(let #p = #name;));
+                    *t.pat = parse_quote!(#name);
+                    self.rules.push(RuleApp { rule: "N18".into(), line: 0, note: "destructuring parameter pattern -> parameter + let".into() });
+                }
+            }
+        }
+        for (i, l) in lets.into_iter().enumerate() {
+            block.stmts.insert(1 + i, l); // after the header marker
+        }
         // strip attributes on params
         for a in sig.inputs.iter_mut() {
             match a {
@@ -307,6 +415,7 @@ impl Norm {
         // N2: indexable source with take / enumerate / zip / skip
         let (idx, lo, hi, elem, notes) = self.lower_iter(it, &mut pre)?;
         self.rule("N2", sp, &format!("for over slice iterator [{}] -> index loop", notes));
+        let (pat, elem) = strip_ref_pat(pat, &elem);
         let f: Stmt = parse_quote!(for #idx in #lo..#hi {
             let #pat = #elem;
             __vx_loop_body_here!();
@@ -451,6 +560,83 @@ impl Norm {
         }
     }
 
+    /// N4: `a.iter()[.copied()].chain(b.iter()).chain(once(x))...[.cloned()].collect()` -> extend_from_slice / push in order.
+    fn chain_collect(&mut self, recv: &Expr, sp: Span) -> Option<Expr> {
+        enum Seg { Slice(Expr), Once(Expr) }
+        fn seg_of(e: &Expr) -> Option<Seg> {
+            let e = strip_paren(e);
+            if let Expr::Call(c) = e {
+                if let Expr::Path(p) = &*c.func {
+                    if p.path.segments.last().map(|s| s.ident == "once").unwrap_or(false) && c.args.len() == 1 {
+                        return Some(Seg::Once(c.args[0].clone()));
+                    }
+                }
+            }
+            let it = parse_iter(e, false)?;
+            match (&it.src, it.adapters.is_empty()) {
+                (Src::Index { base, .. }, true) if is_simple(base) => Some(Seg::Slice(base.clone())),
+                _ => None,
+            }
+        }
+        fn walk(e: &Expr, out: &mut Vec<Seg>) -> Option<()> {
+            let e = strip_paren(e);
+            if let Expr::MethodCall(m) = e {
+                if m.method == "chain" && m.args.len() == 1 {
+                    walk(&m.receiver, out)?;
+                    out.push(seg_of(&m.args[0])?);
+                    return Some(());
+                }
+            }
+            out.push(seg_of(e)?);
+            Some(())
+        }
+        let mut e = strip_paren(recv);
+        let mut cloned = false;
+        if let Expr::MethodCall(m) = e {
+            if (m.method == "cloned" || m.method == "copied") && m.args.is_empty() {
+                if let Expr::MethodCall(inner) = strip_paren(&m.receiver) {
+                    if inner.method == "chain" {
+                        cloned = true;
+                        e = strip_paren(&m.receiver);
+                    }
+                }
+            }
+        }
+        match e {
+            Expr::MethodCall(m) if m.method == "chain" => {}
+            _ => return None,
+        }
+        let mut segs = vec![];
+        walk(e, &mut segs)?;
+        let out = self.fresh("out");
+        let mut stmts: Vec<Stmt> = vec![];
+        for s in segs {
+            match s {
+                Seg::Slice(b) => stmts.push(parse_quote!(#out.extend_from_slice(&#b);)),
+                Seg::Once(x) => {
+                    if cloned {
+                        match strip_paren(&x) {
+                            Expr::Reference(r) if r.mutability.is_none() => { let inner = &r.expr; stmts.push(parse_quote!(#out.push(#inner.clone());)); }
+                            other => stmts.push(parse_quote!(#out.push((#other).clone());)),
+                        }
+                    } else {
+                        stmts.push(parse_quote!(#out.push(#x);));
+                    }
+                }
+            }
+        }
+        self.rule("N4", sp, "iterator chain(..).collect() -> extend_from_slice / push in order");
+        let decl: Stmt = match self.out_ty.take() {
+            Some(ty) => parse_quote!(let mut #out: #ty = Vec::new();),
+            None => parse_quote!(let mut #out = Vec::new();),
+        };
+        Some(parse_quote!({
+            #decl
+            #(#stmts)*
+            #out
+        }))
+    }
+
     /// N5: `<iter>[.map(|p| E)].collect()` -> block expression with a push loop.
     fn collect_to_block(&mut self, it: &Iter, sp: Span) -> Option<Expr> {
         let saved = self.hint.clone();
@@ -488,6 +674,7 @@ impl Norm {
         body.push(parse_quote!(#out.push(#val);));
         let loop_stmts: Vec<Stmt> = match (&it.src, it.adapters.is_empty()) {
             (Src::Range { lo, hi }, true) => {
+                let pat: Pat = if matches!(pat, Pat::Wild(_)) { let k = self.fresh("it"); parse_quote!(#k) } else { pat };
                 vec![parse_quote!(for #pat in #lo..#hi { #(#body)* })]
             }
             _ => self.emit_loop(&it, &pat, body, sp)?,
@@ -552,7 +739,27 @@ impl<'a> Rewriter<'a> {
         }
     }
 
-    fn rewrite_stmt(&mut self, s: Stmt) -> Vec<Stmt> {
+    fn rewrite_stmt(&mut self, mut s: Stmt) -> Vec<Stmt> {
+        match cfg_value(&stmt_attrs(&s)) {
+            Some(false) => {
+                self.n.rule("N10", s.span(), "statement under a #[cfg] that is off in the verified configuration dropped");
+                self.n.dropped.push(format!("cfg-disabled statement at source line {}", s.span().start().line));
+                return vec![];
+            }
+            Some(true) => {
+                match &mut s {
+                    Stmt::Local(l) => l.attrs.clear(),
+                    Stmt::Macro(m) => m.attrs.clear(),
+                    Stmt::Expr(e, _) => clear_expr_attrs(e),
+                    _ => {}
+                }
+            }
+            None => {}
+        }
+        if let Stmt::Item(syn::Item::Use(_)) = &s {
+            self.n.rule("N12", s.span(), "function-local `use` dropped (names resolve in the unit's scope)");
+            return vec![];
+        }
         match &s {
             Stmt::Macro(sm) => {
                 if let Some(v) = self.rewrite_macro_stmt(&sm.mac, sm.span()) {
@@ -569,6 +776,18 @@ impl<'a> Rewriter<'a> {
             Stmt::Expr(Expr::ForLoop(fl), _) => {
                 if fl.label.is_some() {
                     return vec![s];
+                }
+                // N20: `for _ in a..b` gets a named (unused) counter so that invariants can mention it
+                if let (Pat::Wild(_), Some(Iter { src: Src::Range { .. }, adapters })) = (&*fl.pat, parse_iter(&fl.expr, true)) {
+                    if adapters.is_empty() {
+                        let saved = std::mem::replace(&mut self.n.hint, String::new());
+                        let name = self.n.fresh("it");
+                        self.n.hint = saved;
+                        let mut fl2 = fl.clone();
+                        *fl2.pat = parse_quote!(#name);
+                        self.n.rule("N20", fl.span(), "for _ in range -> named unused counter");
+                        return vec![Stmt::Expr(Expr::ForLoop(fl2), None)];
+                    }
                 }
                 match parse_iter(&fl.expr, true) {
                     Some(it) => {
@@ -744,13 +963,30 @@ impl<'a> VisitMut for Rewriter<'a> {
                             Some((k, ty)) if *k == span_key(sp) => Some(ty.clone()),
                             _ => None,
                         };
-                        if let Some(it) = parse_iter(&m.receiver, false) {
+                        if let Some(b) = self.n.chain_collect(&m.receiver, sp) {
+                            replacement = Some(b);
+                        } else if let Some(it) = parse_iter(&m.receiver, false) {
                             match self.n.collect_to_block(&it, sp) {
                                 Some(b) => replacement = Some(b),
                                 None => self.n.errors.push(format!("unsupported collect chain at source line {}", sp.start().line)),
                             }
                         } else {
                             self.n.errors.push(format!("unsupported collect chain at source line {}", sp.start().line));
+                        }
+                    }
+                    ("extend", 1) => {
+                        // N4: v.extend(xs.iter()[.copied()/.cloned()]) / v.extend(&xs) == v.extend_from_slice(&xs)
+                        if let Some(it) = parse_iter(&m.args[0], true) {
+                            if let (Src::Index { base, .. }, true) = (&it.src, it.adapters.is_empty()) {
+                                if is_simple(base) {
+                                    let r = &m.receiver;
+                                    self.n.rule("N4", sp, ".extend(slice iterator) -> .extend_from_slice(&slice)");
+                                    replacement = Some(parse_quote!(#r.extend_from_slice(&#base)));
+                                }
+                            }
+                        }
+                        if replacement.is_none() {
+                            self.n.errors.push(format!("unsupported .extend() argument at source line {}", sp.start().line));
                         }
                     }
                     ("all", 1) | ("any", 1) | ("position", 1) => {
@@ -763,6 +999,12 @@ impl<'a> VisitMut for Rewriter<'a> {
                         } else {
                             self.n.errors.push(format!("unsupported .{name}() receiver at source line {}", sp.start().line));
                         }
+                    }
+                    ("try_into", 0) => {
+                        // N19: type-directed std conversion; the prelude trait VTryInto carries one trusted spec per type pair
+                        self.n.rule("N19", sp, ".try_into() -> .vtry_into() (prelude trait, spec per type pair)");
+                        let r = &m.receiver;
+                        replacement = Some(parse_quote!(#r.vtry_into()));
                     }
                     ("expect", 1) => {
                         self.n.rule("N9", sp, ".expect(msg) -> .unwrap(); message dropped");
